@@ -1,6 +1,7 @@
 from typing import Coroutine, Any, TypeVar, Awaitable, AsyncIterator, Optional, List
 
 from .._primitives.context import Scope
+from .._primitives.timing import Instant
 from .._basics.streams import Queue
 
 import asyncstdlib as a
@@ -48,7 +49,20 @@ async def first(
                 volatile=True,
             )
         async for winner in a.islice(results, count):
-            yield winner
+            if scope._child_failures:
+                # An activity failed already and the abort of this scope is pending:
+                # take it here instead of handing out another result first.
+                await Instant()
+            # While the consumer handles a result it is not inside this scope:
+            # a failing activity must not interrupt the consumer's own code.
+            # Any failure is reported once the consumer asks for the next result.
+            scope._interruptable = False
+            try:
+                yield winner
+            finally:
+                scope._interruptable = True
+            if scope._child_failures:
+                scope.__cancel__()
 
 
 async def collect(*activities: Coroutine[Any, Any, RT]) -> List[RT]:
